@@ -11,6 +11,13 @@ fn parse_content_line(
     let mut nodes = Vec::new();
     if let Some((text_part, divert_part)) = split_inline_divert(content) {
         nodes.extend(tokenize_inline_content(text_part)?);
+        // Text that runs into the divert ends in exactly one space (inklecate trims it and
+        // terminates it with a space) so that it joins the target's text.
+        if let Some(Node::Text(t)) = nodes.last_mut() {
+            let mut joined = t.trim_end().to_owned();
+            joined.push(' ');
+            *t = joined;
+        }
         nodes.push(Node::Divert(parse_divert(divert_part)?));
     } else {
         nodes.extend(tokenize_inline_content(content)?);
